@@ -54,7 +54,7 @@ Moves(t, s) == site' = [site EXCEPT ![t] = s]
 
 \* ---- silent model steps, each by a goroutine that is not standing on an unlogged hook
 SPub(t) == /\ Free(t)
-           /\ (PCheck(t) \/ PRLock(t) \/ PRAdmitted(t) \/ PTmu(t) \/ PPersistSend(t) \/ PWait(t) \/ PUnlock(t) \/ PRet(t))
+           /\ (PCheck(t) \/ PRLock(t) \/ PRAdmitted(t) \/ PTmu(t) \/ PPersistSend(t) \/ PWait(t) \/ PUnlock(t) \/ PNext(t) \/ PRet(t))
            /\ Moves(t, IF perr'[t] THEN "" ELSE PubSite(t))
 SSub(s) == /\ Free(SubC(s))
            /\ (SStart(s) \/ SAnnounce(s) \/ SRegister(s))
@@ -97,7 +97,7 @@ TReset == /\ Is("reset")
                 IF t[1] = "pub" THEN "P_check" ELSE IF t[1] = "cons" THEN "C_recv"
                 ELSE IF t[1] = "subc" THEN "S_start" ELSE IF t[1] = "tear" THEN "off"
                 ELSE IF DoClose THEN "X_start" ELSE "done"]
-          /\ pm' = [t \in PubThreads |-> IF t[1] = "pub" THEN PubMsg[t[2]] ELSE None]
+          /\ pm' = [t \in PubThreads |-> IF t[1] = "pub" THEN [cur |-> PubMsg[t[2]], rest |-> PubRest[t[2]]] ELSE [cur |-> None, rest |-> << >>]]
           /\ closed' = FALSE /\ closing' = FALSE /\ closedMu' = NoT /\ wg' = 0
           /\ rwReaders' = 0 /\ rwPending' = FALSE /\ rwWmu' = NoT /\ rblocked' = {}
           /\ tmu' = [tp \in Topics |-> NoT] /\ reg' = [tp \in Topics |-> {}]
